@@ -301,6 +301,8 @@ func docIDs(l be.DocIDList) []int64 {
 	return r
 }
 
+var retrievedLists int // successful Retrieve calls so far: alternates between keeping the returned list and overwriting it
+
 // runIndexQueries runs the queries of a case against a built index; returns the ires literals.
 func runIndexQueries(index be.BEIndex, qs []eQuery, obs *e2eObs) []string {
 	var out []string
@@ -345,7 +347,15 @@ func runIndexQueries(index be.BEIndex, qs []eQuery, obs *e2eObs) []string {
 				obs.Results = append(obs.Results, "err(collector)")
 			} else {
 				lit = fmt.Sprintf("IRes %s %s", zlist(docIDs(docs)), hitsCoq(rec.hits))
-				held = append(held, heldList{at: len(out), q: q, docs: docs, hits: hitsCoq(rec.hits)})
+				if retrievedLists++; retrievedLists%2 == 0 {
+					// the list Retrieve returns is the caller's: every other one is consumed in place (the `ids[:0]`
+					// filter idiom overwrites its elements), which no later answer of any index may show
+					for k := range docs {
+						docs[k] = be.DocID(-90001 - int64(k))
+					}
+				} else {
+					held = append(held, heldList{at: len(out), q: q, docs: docs, hits: hitsCoq(rec.hits)})
+				}
 				obs.Results = append(obs.Results, fmt.Sprintf("docs=%v", docIDs(docs)))
 				if len(docs) > 0 {
 					obs.AnyHit = true
